@@ -38,7 +38,13 @@ def main(tier, replay=None):
         lab = cell.row_index_to_label(i)
         return {'kind': 'row', 'in': {'i': i}, 'out': {'label': cps(lab), 'back': cell.row_label_to_index(lab)}}
 
-    def ext_obs(s):
+    class HostLabel(str):
+        """a label as hosts hold it: text of a subclass of str (a markup-safe string, an enum member, an XML smart string)"""
+
+    def ext_obs(s, host=False):
+        plain = s
+        if host:
+            s = HostLabel(s)
         first = cell.extract_label(s)
         if isinstance(first, list):
             # the caller does what it likes with the list it was given; the next decomposition is a fresh one
@@ -55,13 +61,13 @@ def main(tier, replay=None):
                        re=cps(cell.to_label(row, col)))
             if not (isinstance(row.index, int) and isinstance(col.index, int) and abs(row.index) < 2 ** 31):
                 out['ri'] = -999
-        return {'kind': 'ext', 'in': {'s': cps(s)}, 'out': out}
+        return {'kind': 'ext', 'in': {'s': cps(plain), 'host': bool(host)}, 'out': out}
 
     if replay:
         c = json.load(open(replay))['case']
         k = c['kind']
         o = col_obs(c['in']['i']) if k == 'col' else row_obs(c['in']['i']) if k == 'row' else \
-            ext_obs(''.join(chr(x) for x in c['in']['s']))
+            ext_obs(''.join(chr(x) for x in c['in']['s']), c['in'].get('host', False))
         o['id'] = 1
         v = core.validate_obs(run, 'Trace_C19', [o], 'replay')
         core.tally(run, [o], v, 'c19')
@@ -102,6 +108,7 @@ def main(tier, replay=None):
                 for ra in ('', '$'):
                     labs += [ca + m.group(1) + ra + m.group(2), ca + m.group(1).lower() + ra + m.group(2)]
     obs += [ext_obs(s) for s in labs]
+    obs += [ext_obs(s, host=True) for s in labs[::3]]
     non = list(NEAR)
     alphabet = 'A1$a0 :.-b9Z\n'
     for _ in range(4000 if quick else 100000):
@@ -116,6 +123,7 @@ def main(tier, replay=None):
         ch = rng.choice(odd)
         non.append(base[:i] + ch + base[i + (rng.random() < 0.5):])
     obs += [ext_obs(s) for s in non]
+    obs += [ext_obs(s, host=True) for s in non[::5]]
     for n, o in enumerate(obs, 1):
         o['id'] = n
     CH = 80000
